@@ -31,6 +31,7 @@ def run(prog, rep):
     rep.part(c10.align, prog, _Map(rep), "C09.masks")
     rep.part(intervals, prog, rep)
     rep.part(defaults, prog, rep)
+    rep.part(none_defaults, prog, rep)
     rep.part(ties, prog, rep)
     # which observations fall in which interval is the slicers' business (C10): the same obligations are filed here too
     from vstat.report import Relabel
@@ -50,7 +51,8 @@ def run(prog, rep):
     rep.expect_min("C09.split", 3)
     rep.expect_min("C09.masks", 4)
     rep.expect_min("C09.intervals", 5)
-    rep.expect_min("C09.defaults", 3)
+    rep.expect_min("C09.defaults", 5)
+    rep.expect_min("C09.nonedefault", 2)
 
 
 def ties(prog, rep):
@@ -205,21 +207,42 @@ def intervals(prog, rep):
         el = ("sub", P("data"), ("idx", f"{lp.lineno}:{lp.col_offset}", "iter"))
         fresh = ("call", G("copy.deepcopy"), (("attr", SELF, "distribution"),), ())
         fit_ok = app_ok = par_ok = False
-        for st in lp.body:
+        pcs_ = path_conditions(prog, fn, b)
+        outer = set(pcs_.of(lp))
+        fits = []
+        callee = prog.func("virocon.distributions.Distribution.fit")
+        cpos = [p_ for p_ in callee.positional_params if p_ != "self"]
+        if True:
+            a_ = callee.node.args
+            names_ = [x.arg for x in a_.args]
+            dflt = dict(zip(names_[len(names_) - len(a_.defaults):], a_.defaults))
+            m_default = dflt.get("method")
+        default_is_method = isinstance(m_default, ast.Constant) and isinstance(m_default.value, str)
+        NONE_M = ("isnone", P("method"))
+        for st in [s_ for s_ in cfg.all_stmts() if lp in cfg.enclosing_loops(s_)]:
             if isinstance(st, ast.Expr) and isinstance(st.value, ast.Call):
                 t = b.term(st.value, st)
                 if t[0] == "call" and t[1] == ("attr", fresh, "fit"):
-                    kw = dict(t[3])
-                    args = list(t[2]) + [kw[k] for k in ("method", "weights") if k in kw]
-                    fit_ok = args == [el, P("method"), P("weights")]
-                    if not fit_ok:
-                        why = f"per-interval fit must be deepcopy(template).fit(interval_data, method, weights); found {show(t)[:160]}"
+                    got = dict(zip(cpos, t[2]))
+                    got.update(dict(t[3]))
+                    own = [l for l in pcs_.of(st) if l not in outer]
+                    form_ok = got.get(cpos[0]) == el and got.get("weights") == P("weights") and set(got) <= {cpos[0], "method", "weights"}
+                    if "method" in got:
+                        form_ok = form_ok and got["method"] == P("method") and all(l in (("not", NONE_M),) for l in own)
+                    else:
+                        # the template's own default method: only when none was asked for, and only if the template has one
+                        form_ok = form_ok and own == [NONE_M] and default_is_method
+                    fits.append((form_ok, own, t))
+                    if not form_ok:
+                        why = f"per-interval fit must be deepcopy(template).fit(interval_data, method, weights) (the template's default only when method is None); found {show(t)[:160]} under {[show(l) for l in own]}"
                 elif t[0] == "call" and t[1][0] == "attr" and t[1][2] == "fit":
                     why = f"the per-interval fit receiver must be a fresh copy.deepcopy(self.distribution), found {show(t[1][1])[:80]}: fitting the template itself changes every later interval and the model"
                 if t[0] == "call" and t[1] == ("attr", ("attr", SELF, "distributions_per_interval"), "append"):
                     app_ok = t[2] == (fresh,)
                 if t[0] == "call" and t[1] == ("attr", ("attr", SELF, "parameters_per_interval"), "append"):
                     par_ok = t[2] == (("attr", fresh, "parameters"),)
+        conds = sorted(repr(o) for _f, o, _t in fits)
+        fit_ok = bool(fits) and all(f_ for f_, _o, _t in fits) and conds in ([repr([])], sorted([repr([NONE_M]), repr([("not", NONE_M)])]))
         ok = fit_ok and app_ok and par_ok
         if fit_ok and not (app_ok and par_ok):
             why = "the fitted copy and its parameters must be appended (in interval order) to distributions_per_interval / parameters_per_interval"
@@ -264,6 +287,71 @@ def intervals(prog, rep):
                   "dependence functions are fitted after all intervals", "the dependence functions must be fitted after the interval loop")
 
 
+def none_defaults(prog, rep):
+    """'method : str, optional - defaults to the distribution's default': a None default of a fit option (of any parameter of the
+    package) must not be handed to a callee that dereferences it (rules/noneflow.py)."""
+    from . import noneflow
+    if not noneflow.self_test():
+        raise AnalysisError("noneflow: the built-in positive example is no longer reported")
+    fns = []
+    for q, f in sorted(prog.functions.items()):
+        if isinstance(f.node, ast.FunctionDef) and q.startswith("virocon.") and f.parent is None:
+            fns.append((q, f.cls.name if f.cls is not None else None, f.node))
+    template_fit = "virocon.distributions.Distribution.fit"
+
+    def resolve(caller_q, call):
+        # the template of a conditional distribution is a Distribution (C08 / C09.intervals rest on the same fact): its fit is Distribution.fit
+        if caller_q.startswith(CD + ".") and isinstance(call.func, ast.Attribute) and call.func.attr == "fit":
+            f_ = prog.func(caller_q)
+            b_ = builder(prog, f_, inline=False)
+            st_ = next((s_ for s_ in cfg_of(f_).all_stmts() if any(n_ is call for n_ in ast.walk(s_)) and not isinstance(s_, (ast.For, ast.While, ast.If, ast.With, ast.Try))), None)
+            if st_ is not None:
+                recv = b_.term(call.func.value, st_)
+                if recv in (("attr", SELF, "distribution"), ("call", G("copy.deepcopy"), (("attr", SELF, "distribution"),), ())):
+                    return template_fit
+        return None
+    reports, pairs = noneflow.scan(fns, resolve)
+    with_none = sum(1 for _q, _c, n in fns if noneflow.none_defaults(n))
+    if with_none < 20:
+        raise AnalysisError(f"noneflow: only {with_none} functions with a None default found in the package (anchor: at least 20)")
+    cd = prog.func(f"{CD}.fit")
+    rep.analysed(cd)
+    by_fn = {}
+    for r in reports:
+        by_fn.setdefault(r[1], []).append(r)
+    # one row for the conditional fit (the documented 'defaults to the distribution's default'), one per other offender, one for the sweep
+    for q in sorted(set(by_fn) | {cd.qualname}):
+        rs = by_fn.get(q, [])
+        fn = prog.func(q)
+        what = "; ".join(f"{r[2]}=None reaches {r[3] or 'a dereference in the function itself'} (line {r[4]}), dereferenced there at line(s) {r[5]}" for r in rs)
+        rep.check(not rs, "C09.nonedefault", f"{q}:none-default", fn.where(), "no None default reaches a dereference",
+                  f"the documented default call crashes: {what} - e.g. ConditionalDistribution.fit(data, values, boundaries) passes method=None positionally to "
+                  "Distribution.fit, overriding its 'mle' default, and method.lower() raises AttributeError")
+    rep.ok("C09.nonedefault", "virocon:sweep", "virocon/", f"{with_none} functions with None defaults, {pairs} parameter / call pairs examined")
+
+
+def _filled(v, entry):
+    """v is the caller's description `entry` with weights=None added where it has none, as a NEW dict (or the entry itself, unchanged,
+    where it already has weights): {"weights": None, **entry}, {**entry, "weights": entry.get("weights")}, entry if "weights" in entry else {...}"""
+    W = ("const", "weights")
+    if v[0] == "dict":
+        items = list(v[1])
+        if items == [(W, NONE), (("const", "**"), entry)]:
+            return True
+        get = [("call", ("attr", entry, "get"), (W,), ()), ("call", ("attr", entry, "get"), (W, NONE), ())]
+        if len(items) == 2 and items[0] == (("const", "**"), entry) and items[1][0] == W and items[1][1] in get:
+            return True
+        return False
+    if v[0] == "ifexp":
+        test, a, b_ = v[1], v[2], v[3]
+        has = ("cmp", "in", W, entry)
+        if test == has:
+            return a == entry and _filled(b_, entry)
+        if test == ("not", has):
+            return b_ == entry and _filled(a, entry)
+    return False
+
+
 def defaults(prog, rep):
     q = f"{GHM}._check_and_fill_fit_desc"
     fn = prog.func(q)
@@ -291,6 +379,32 @@ def defaults(prog, rep):
                     entry_none = True
                 if base[0] == "sub" and base[1] == fdp and idx == ("const", "weights") and t == NONE:
                     w_none = ("not", ("cmp", "in", ("const", "weights"), base)) in pc
+    # the filled descriptions collected in a NEW list (the caller's sequence may be a tuple, and its dicts are the caller's)
+    stores = []
+    for st in cfg.all_stmts():
+        for tg in (st.targets if isinstance(st, ast.Assign) else [st.target] if isinstance(st, ast.AugAssign) else []):
+            if isinstance(tg, ast.Subscript):
+                base = b.term(tg.value, st)
+                if base == fdp or (base[0] == "sub" and base[1] == fdp):
+                    stores.append(st)
+        if isinstance(st, ast.Expr) and isinstance(st.value, ast.Call):
+            t = b.term(st.value, st)
+            if t[0] == "call" and t[1][0] == "attr" and (t[1][1] == fdp or (t[1][1][0] == "sub" and t[1][1][1] == fdp)) \
+                    and t[1][2] in ("append", "extend", "insert", "update", "setdefault", "pop", "clear", "remove", "sort", "reverse", "__setitem__"):
+                stores.append(st)
+            if t[0] == "call" and t[1][0] == "attr" and t[1][2] == "append" and len(t[2]) == 1 and cfg.enclosing_loops(st):
+                pc = pcs.of(st)
+                v = t[2][0]
+                ents = [l[1] for l in pc if l[0] == "isnone" and l[1][0] == "sub" and l[1][1] == fdp]
+                if v == dflt and ents:
+                    entry_none = True
+                for l in pc:
+                    if l[0] == "not" and l[1][0] == "isnone" and l[1][1][0] == "sub" and l[1][1][1] == fdp and _filled(v, l[1][1]):
+                        w_none = True
+    rep.check(not stores, "C09.defaults", f"{q}:caller-unchanged", fn.where(stores[0]) if stores else fn.where(), "the caller's descriptions are not written to",
+              "the defaults are written INTO the caller's fit_descriptions: a tuple of descriptions containing None raises TypeError ('tuple' object does not support "
+              "item assignment), and a caller's list / dicts are changed behind its back (the description reused for another model now carries 'weights'); "
+              "fill a new list with copies")
     for st, nm, t in b.list_values():
         # the all-None default built by a loop of appends
         if nm == "fit_descriptions" and ("isnone", fdp) in pcs.of(st) and t[0] == "comp" and t[2] == dflt and t[4] == ("call", G("range"), (("attr", SELF, "n_dim"),), ()):
@@ -308,5 +422,5 @@ def defaults(prog, rep):
             all_none = True
     rep.check(d_ok and all_none, "C09.defaults", f"{q}:none", fn.where(), "no descriptions -> n_dim x {'method': 'mle', 'weights': None}",
               "fit_descriptions=None must become one {'method': 'mle', 'weights': None} per dimension")
-    rep.check(bool(ret) and all(a in (fdp,) or a[0] in ("comp", "bin") for r_ in ret for a in alts(b.term(r_.value, r_))), "C09.defaults", f"{q}:returns", fn.where(),
+    rep.check(bool(ret) and all(a in (fdp,) or a[0] in ("comp", "bin", "list") for r_ in ret for a in alts(b.term(r_.value, r_))), "C09.defaults", f"{q}:returns", fn.where(),
               "returns the (filled) descriptions", "must return the filled fit descriptions")
